@@ -94,9 +94,29 @@ fn main() {
             b.push(if tag == 0 { None } else { Some(v) });
         }
         let form = c.i64();
+        // form >= 10: an omitted step is written with its colon (`x[a:b:]`)
+        let trailing_colon = form >= 10;
+        let form = form % 10;
         let n = c.usize();
         let elems: Vec<i128> = (0..n).map(|_| c.i128()).collect();
-        let x = container(kind, &elems);
+        // kinds 6..8: the container is a concatenation built in the template: lazy + list, list + lazy,
+        // list|chain(lazy); p holds the first half of the elements, q the second half
+        let (base, x, p, q) = if (6..=8).contains(&kind) {
+            let h = n / 2;
+            let (pk, qk) = match kind {
+                6 => (5, 3),
+                7 => (3, 5),
+                _ => (3, 5),
+            };
+            (
+                if kind == 8 { "(p|chain(q))" } else { "(p + q)" },
+                Value::UNDEFINED,
+                container(pk, &elems[..h]),
+                container(qk, &elems[h..]),
+            )
+        } else {
+            ("x", container(kind, &elems), Value::UNDEFINED, Value::UNDEFINED)
+        };
         let lit = |o: &Option<String>, name: &str| -> String {
             match o {
                 None => String::new(),
@@ -112,28 +132,26 @@ fn main() {
             }
         };
         const SECOND: [&str; 8] = ["[::-1]", "[1:]", "[:-1]", "[::2]", "[-2:]", "[1:-1]", "[-1::-1]", "[0:2]"];
-        let first = if b[2].is_none() {
-            format!("x[{}:{}]", lit(&b[0], "a"), lit(&b[1], "b"))
+        let first = if b[2].is_none() && !trailing_colon {
+            format!("{}[{}:{}]", base, lit(&b[0], "a"), lit(&b[1], "b"))
         } else {
-            format!("x[{}:{}:{}]", lit(&b[0], "a"), lit(&b[1], "b"), lit(&b[2], "c"))
+            format!("{}[{}:{}:{}]", base, lit(&b[0], "a"), lit(&b[1], "b"), lit(&b[2], "c"))
         };
         let src = if (2..34).contains(&mode) {
             format!("{}[{}]", first, mode - 18)
         } else if mode >= 100 {
             format!("{}{}", first, SECOND.get((mode - 100) as usize).copied().unwrap_or("[:]"))
         } else if mode == 1 {
-            format!("x[{}]", lit(&b[0], "a"))
-        } else if b[2].is_none() {
-            format!("x[{}:{}]", lit(&b[0], "a"), lit(&b[1], "b"))
+            format!("{}[{}]", base, lit(&b[0], "a"))
         } else {
-            format!("x[{}:{}:{}]", lit(&b[0], "a"), lit(&b[1], "b"), lit(&b[2], "c"))
+            first.clone()
         };
         let val = |o: &Option<String>| {
             o.as_ref()
                 .map(|s| int_value_as(s, form))
                 .unwrap_or(Value::from(()))
         };
-        let ctx = context! { x => x, a => val(&b[0]), b => val(&b[1]), c => val(&b[2]) };
+        let ctx = context! { x => x, p => p, q => q, a => val(&b[0]), b => val(&b[1]), c => val(&b[2]) };
         let mut out = vec![];
         match env.compile_expression(&src).and_then(|e| e.eval(ctx)) {
             Ok(v) => enc_value(&v, &mut out),
